@@ -70,7 +70,7 @@ def handleDur (st : DurState) : List String → Option (DurState × String)
     pure ({ cmpId := c }, "ok")
   | ["cfg", b] => do
     let b ← bit? b
-    pure ({ st with cfg := ⟨b⟩ }, "ok")
+    pure ({ st with cfg := { st.cfg with failedRecordLeavesNoTrace := b } }, "ok")
   | ["strict", m, j, jc] => do
     let m ← bit? m; let j ← bit? j; let jc ← bit? jc
     pure ({ st with flags := ⟨m, j, jc⟩ }, "ok")
